@@ -505,6 +505,15 @@ class PyRef:
                 return t[value]
             if is_expr(value):
                 raise Unsupported("alt constant")
+            # Python-math semantics: a numpy scalar constant is the Python number of the same value
+            if isinstance(value, np.bool_):
+                return bool(value)
+            if isinstance(value, np.integer):
+                return int(value)
+            if isinstance(value, np.floating):
+                return float(value)
+            if isinstance(value, np.complexfloating):
+                return complex(value)
             return value
         if kind == "apply":
             return self.eval(ops[-1])
